@@ -23,6 +23,8 @@ pub mod c05_rel;
 #[cfg(any(kani, test))]
 pub mod c14_scan;
 #[cfg(any(kani, test))]
+mod c14_table;
+#[cfg(any(kani, test))]
 pub mod c12_vars;
 #[cfg(any(kani, test))]
 mod c01_combined;
